@@ -78,6 +78,11 @@ def cases(spec, ctx):
             r["w"] = max(xm, r["w"] - r["w"] % xm)
             r["h"] = max(ym, r["h"] - r["h"] % ym)
         r["pics"]["class"] = rng.choice(["noise", "noise", "noise", "ramp", "checker", "mid", "zero", "mixed"])
+        if rng.random() < 0.2:
+            # a sibling (one attribute changed) right after its original, in the same process
+            sb = configs.sibling(rng, r, rng.choice(["cdf", "chroma_depth", "luma_depth", "wi", "d", "sx", "sy", "qm", "pb", "fsc"]))
+            if not sb["lossless"] and sb["pb"] is not None:
+                yield {"recipe": sb, "minq": rng.choice([0, 5]), "mins": 1}
         yield {
             "recipe": r,
             # minimum_qindex is a single int or one int per picture
